@@ -43,7 +43,10 @@ ASSUMPTIONS = [
     "semantics file Sem.v is tied to ExpressionTree.evaluate/is_equation_met by a line-by-line Python transcription "
     "(py_eval/py_met) run on every equation of every configuration",
     "constants of Inter (4*tau*tau, tau = 0.01*min(dw,dh)/#modules) and Shapes (10*thin(r,1)) involve non-dyadic "
-    "decimals and are compared within 1e-12 relative; every other constant exactly",
+    "decimals and are compared within 1e-12 relative; every other constant exactly on the integer/dyadic stream, "
+    "within 1e-12 on the decimal stream (model run on the exact binary values the implementation received)",
+    "sqrt(CST) and CST**CST with a non-natural exponent (folded by the overloads with libm) are not modelled; the "
+    "equation generator never produces them (a Sqrt/Pow node over a variable is always built)",
 ]
 
 GROUPS = {"Area": "GArea", "Inter": "GInter", "Fix": "GFix", "Bounds": "GBounds", "Shapes": "GShapes",
@@ -178,7 +181,7 @@ def gen_module(rng, kind, slot, q, ratio, force_sides=None):
 
 
 def gen_netlist(rng):
-    q = rng.choice([1, 1, 2, 4, 4, 8])
+    q = rng.choice([1, 1, 2, 4, 4, 8, 10])          # 10: decimal coordinates (multiples of 0.1 / 0.05)
     ratio = rng.choice([F(2), F(2), F(3), F(4), F(5, 2), F(8)])
     cols, rows = rng.choice([(1, 1), (2, 1), (2, 2), (2, 2), (3, 2), (3, 1), (1, 2)])
     S = F(16)
@@ -570,12 +573,16 @@ def classify(net, cfg, delta, tau):
     return None
 
 
-def input_vals(obs_netlist):
+def input_vals(obs_netlist, case=None):
     """The input configuration in the legaliser's variable order."""
     out = []
-    for om in obs_netlist:
+    for m, om in enumerate(obs_netlist):
         order, _ = structure([r["loc"] for r in om["rects"]])
-        out.append([[F(core.frac(om["rects"][k][c])) for c in ("x", "y", "w", "h")] for k in order])
+        by_float = {}
+        if case is not None:
+            by_float = {tuple(float(v) for v in r): [F(v) for v in r] for r in case["modules"][m]["rects"]}
+        out.append([by_float.get(tuple(float(om["rects"][k][c]) for c in ("x", "y", "w", "h")),
+                                 [F(core.frac(om["rects"][k][c])) for c in ("x", "y", "w", "h")]) for k in order])
     return out
 
 
@@ -585,7 +592,10 @@ def observed_net(case, obs):
     mods = []
     for cm, om in zip(case["modules"], obs["netlist"]):
         order, sides = structure([r["loc"] for r in om["rects"]])
-        boxes = [[F(core.frac(om["rects"][k][c])) for c in ("x", "y", "w", "h")] for k in order]
+        # the numbers are the generator's (exact decimals / dyadics); the loaded netlist tells the order and roles
+        by_float = {tuple(float(v) for v in r): [F(v) for v in r] for r in cm["rects"]}
+        boxes = [by_float.get(tuple(float(om["rects"][k][c]) for c in ("x", "y", "w", "h")),
+                              [F(core.frac(om["rects"][k][c])) for c in ("x", "y", "w", "h")]) for k in order]
         mods.append({"kind": cm["kind"], "area": F(cm["area"]) if cm["kind"] == "soft" else None, "boxes": boxes,
                      "sides": sides, "slot": cm.get("slot")})
     return {"dw": F(case["dw"]), "dh": F(case["dh"]), "ratio": F(case["ratio"]), "modules": mods}
@@ -669,6 +679,21 @@ def _cleanup_tmp():
     os.environ.pop("TMPDIR", None)
 
 
+def load_netlist(case):
+    """The netlist as netlist_to_utils receives it (roles assigned by create_stog on loading)."""
+    from frame.netlist.netlist import Netlist
+    from frame.geometry.geometry import Rectangle
+    Rectangle.undefine_epsilon()
+    try:
+        nl = Netlist(to_yaml(case))
+        return [{"hard": bool(m.is_hard), "fixed": bool(m.is_fixed), "area": float(m.area()),
+                 "rects": [{"loc": r.location.name, "x": float(r.center.x), "y": float(r.center.y),
+                            "w": float(r.shape.w), "h": float(r.shape.h)} for r in m.rectangles]}
+                for m in nl.modules]
+    finally:
+        Rectangle.undefine_epsilon()
+
+
 def run_impl(case):
     _ensure_tmp()
     from frame.netlist.netlist import Netlist
@@ -713,11 +738,14 @@ def run_impl(case):
         obs["eqs"] = eqs
         obs["other"] = other
         obs["tau"] = float(M.tau.evaluate())
+        var0 = {"x": M.x[0][0], "y": M.y[0][0], "w": M.w[0][0], "h": M.h[0][0]}
+        obs["ops"] = [dump_tree(build_optree(t, lambda c: et.ExpressionTree(M.gekko.gekko, c), lambda k: var0[k]),
+                                NodeType) for t in case.get("ops", [])]
         # configurations
         for cfg in case.get("configs", []):
             M.time.assign(float(cfg["time"]))
             env = {}
-            vals = cfg.get("vals") or input_vals(obs["netlist"])
+            vals = cfg.get("vals") or input_vals(obs["netlist"], case)
             for m in range(len(M.M)):
                 for i in range(M.M[m].c):
                     x, y, w, h = (float(v) for v in vals[m][i])
@@ -784,8 +812,9 @@ def to_coq(case, obs):
     iu = f"(mkUtils {uml} {glist(gq(a) for a in u['al'])} {rows(u['xl'])} {rows(u['yl'])} {rows(u['wl'])} {rows(u['hl'])})"
     ieqs = glist(geqn(e) for e in obs["eqs"])
     tole = "0" if case.get("exact", True) else "(qc 1 1000000000000)"
+    ops = "".join(f" && expr_close 0 {g_optree(t)} {gexpr(o)}" for t, o in zip(case.get("ops", []), obs.get("ops", [])))
     return (f"c09_agree {glist(mods)} {gq(case['dw'])} {gq(case['dh'])} {gq(case['ratio'])} {tole} "
-            f"(qc 1 1000000000000) {iu} {ieqs}")
+            f"(qc 1 1000000000000) {iu} {ieqs}{ops}")
 
 
 # ----------------------------------------------------------------------------------
@@ -802,7 +831,7 @@ def oracle(case, obs):
     net = observed_net(case, obs)
     tau = F(1, 100) * min(net["dw"], net["dh"]) / len(net["modules"])
     for cfg, oc in zip(case.get("configs", []), obs["configs"]):
-        vals = [[[F(v) for v in b] for b in mod] for mod in (cfg.get("vals") or input_vals(obs["netlist"]))]
+        vals = [[[F(v) for v in b] for b in mod] for mod in (cfg.get("vals") or input_vals(obs["netlist"], case))]
         v = legality(net, vals)
         legal = all(x == 0 for x in v.values())
         all_met = all(oc["met"])
@@ -829,8 +858,10 @@ def oracle(case, obs):
 def failure_key(case, why):
     w = str(why)
     hard_branch = any(m["kind"] in ("hard", "fixed") and len(m["rects"]) > 1 for m in case["modules"])
-    if hard_branch and ("Fix/" in w or "'rigid'" in w or w in ("disagree", "unprintable")):
+    if hard_branch and ("Fix/" in w or "'rigid'" in w):
         return "C09/hard-branch-fix"
+    if "raised" in w:
+        return "C09/model-construction"
     return "C09/system"
 
 
@@ -851,6 +882,8 @@ def shrink(case):
     for k, m in enumerate(mods):
         for j in range(1, len(m["rects"])):
             m2 = dict(m, rects=m["rects"][:j] + m["rects"][j + 1:])
+            if m["kind"] == "soft":          # keep the input legal: the requirement cannot exceed what is left
+                m2["area"] = min(F(m["area"]), sum(F(r[2]) * F(r[3]) for r in m2["rects"]))
             yield dict(case, modules=mods[:k] + [m2] + mods[k + 1:],
                        configs=[{"time": 200, "label": "input", "vals": None}, {"time": 1, "label": "input", "vals": None}])
     # no nets
@@ -863,8 +896,13 @@ def shrink(case):
 # ----------------------------------------------------------------------------------
 def add_configs(rng, case, nconf):
     """Needs the roles chosen by the real create_stog, so the netlist is loaded once here."""
-    probe = run_impl(dict(case, configs=[]))
-    net = observed_net(case, probe)
+    try:
+        probe = {"netlist": load_netlist(case)}
+        net = observed_net(case, probe)
+    except Exception:
+        # the harness cannot look at the netlist: let run_cases record what the implementation does
+        case["configs"] = [{"time": 1, "label": "input", "vals": None}]
+        return case
     q = max(case.get("q", 4), 2)
     tau = F(1, 100) * min(net["dw"], net["dh"]) / len(net["modules"])
     inp = [[list(b) for b in mod["boxes"]] for mod in net["modules"]]
@@ -900,9 +938,75 @@ def add_configs(rng, case, nconf):
     return case
 
 
+OPS = ["add", "sub", "mul", "div", "pow"]
+
+
+def has_var(t):
+    return t[0] == "v" or any(has_var(c) for c in t[1:] if isinstance(c, list))
+
+
+def gen_optree(rng, depth):
+    """A small expression built through the operator overloads: ["c", q] constant node, ["v", k] variable
+    k of rectangle 0 of module 0, ["n", q] a bare Python number (right operand only), [op, a, b], ["sqrt", a]."""
+    if depth == 0 or rng.random() < 0.3:
+        if rng.random() < 0.55:
+            return ["c", F(rng.randrange(-16, 17), 4)]
+        return ["v", rng.choice("xywh")]
+    if rng.random() < 0.1:
+        a = gen_optree(rng, depth - 1)
+        if not has_var(a):
+            a = ["v", "w"]              # sqrt(CST) is folded with math.sqrt: not modelled (see Syntax.v)
+        return ["sqrt", a]
+    op = rng.choice(OPS)
+    a = gen_optree(rng, depth - 1)
+    if a[0] == "n":
+        a = ["c", a[1]]
+    if op == "div":
+        b = ["c", rng.choice([F(1, 4), F(1, 2), F(1), F(2), F(4), F(-2)])] if rng.random() < 0.7 else ["v", "h"]
+    elif op == "pow":
+        b = ["c", F(rng.choice([0, 1, 2, 2, 3]))]
+        if a[0] == "c" and a[1] == 0:
+            a = ["c", F(3, 2)]
+    else:
+        b = gen_optree(rng, depth - 1)
+    if b[0] == "c" and rng.random() < 0.3:
+        b = ["n", b[1]]
+    return [op, a, b]
+
+
+def build_optree(t, mk_const, var):
+    import operator
+    from tools.legalfloor.expression_tree import sqrt as et_sqrt
+    k = t[0]
+    if k == "c":
+        return mk_const(float(t[1]))
+    if k == "n":
+        q = F(t[1])
+        return int(q) if q.denominator == 1 else float(q)
+    if k == "v":
+        return var(t[1])
+    if k == "sqrt":
+        return et_sqrt(build_optree(t[1], mk_const, var))
+    f = {"add": operator.add, "sub": operator.sub, "mul": operator.mul, "div": operator.truediv,
+         "pow": operator.pow}[k]
+    return f(build_optree(t[1], mk_const, var), build_optree(t[2], mk_const, var))
+
+
+def g_optree(t):
+    k = t[0]
+    if k in ("c", "n"):
+        return f"(C {gq(F(t[1]))})"
+    if k == "v":
+        return f"(V V{t[1].upper()} 0 0)"
+    if k == "sqrt":
+        return f"(esqrt {g_optree(t[1])})"
+    return f"(e{k} {g_optree(t[1])} {g_optree(t[2])})"
+
+
 def gen_case(rng, nconf):
     case = gen_netlist(rng)
-    case["exact"] = True
+    case["exact"] = case["q"] != 10
+    case["ops"] = [gen_optree(rng, 3) for _ in range(6)]
     return add_configs(rng, case, nconf)
 
 
@@ -917,11 +1021,12 @@ def nontrivial(case):
 
 
 def run(ctx, out, replay=None):
-    n = 100 if ctx.quick() else 1500
+    n = 240 if ctx.quick() else 3000
     nconf = 10
     out.rule = ("netlists of 1-5 single-trunk orthogons in disjoint 16x16 slots of the die (soft with 0-4 branches on "
                 "any side incl. several on one side in shuffled netlist order, hard, fixed; integer and dyadic k/2,k/4,k/8 "
-                "coordinates, YAML ints and floats), ratio limits 2..8; per netlist the input configuration and ~10 "
+                "coordinates, 1 in 7 decimal k/10 (compared within 1e-12), YAML ints and floats), ratio limits 2..8; 6 random "
+                "operator-overload trees (constant folding) per netlist; per netlist the input configuration and ~10 "
                 "random configurations: legal (reshaped soft / translated hard modules) or breaking exactly one of "
                 "inside/aspect/area/attach/order/overlap/rigid by > 10*(epsilon+1e-6), at epsilon in {0.27,0.0127,5.4e-4,0}; "
                 "non-trivial = some module with a branch and >= 2 configurations")
